@@ -161,6 +161,7 @@ func (ex *Exec) Discharge(timeout time.Duration, keepScripts string) []*OblResul
 	type job struct {
 		i      int
 		script string
+		sk     string // skolemised goal with the hypotheses instantiated at the skolem constants (quantifier-free)
 	}
 	var jobs []job
 	var inputs []*Term
@@ -196,7 +197,7 @@ func (ex *Exec) Discharge(timeout time.Duration, keepScripts string) []*OblResul
 			os.MkdirAll("/tmp/govc-dump", 0o755)
 			os.WriteFile(filepath.Join("/tmp/govc-dump", sanitize(o.Name)+".smt2"), []byte(script), 0o644)
 		}
-		jobs = append(jobs, job{i, script})
+		jobs = append(jobs, job{i, script, ex.skolemScript(o)})
 	}
 	var wg sync.WaitGroup
 	for _, j := range jobs {
@@ -257,6 +258,18 @@ func (ex *Exec) Discharge(timeout time.Duration, keepScripts string) []*OblResul
 					}
 				}
 			}
+			if j.sk != "" {
+				// universally quantified goal: a fresh constant for the bound variable and the
+				// instances of the quantified hypotheses at it often suffice, and the query is
+				// quantifier-free (bit-vector fast path)
+				if sr := Solve(j.sk, timeout/2, nil); sr.Status == "unsat" {
+					r.Status, r.Solver = "proved", sr.Solver+"(skolem instances)"
+					r.Seconds += sr.Seconds
+					return
+				} else {
+					r.Seconds += sr.Seconds
+				}
+			}
 			var sr *SolverResult
 			if fs := ex.focusScript(o); fs != "" {
 				// race the full query against one without the quantified hypotheses of the
@@ -302,6 +315,61 @@ func (ex *Exec) Discharge(timeout time.Duration, keepScripts string) []*OblResul
 	}
 	wg.Wait()
 	return results
+}
+
+// skolemScript: for a goal forall x. body, the query {quantifier-free facts, instances of the
+// quantified facts at a fresh constant c, not body[c]}. Dropping and instantiating hypotheses
+// is sound for an unsat answer. Built sequentially (it creates terms).
+func (ex *Exec) skolemScript(o *Obligation) string {
+	ts := ex.ts
+	g := o.Goal
+	var consts []*Term
+	for g.Op == OpForall && len(consts) < 4 {
+		c := ts.Fresh("sk."+g.Args[0].Name, g.Args[0].Sort)
+		consts = append(consts, c)
+		g = ts.Subst(g.Args[1], g.Args[0], c)
+	}
+	if len(consts) == 0 || ts.HasQuant(g) {
+		return ""
+	}
+	var asserts []*Term
+	var addInst func(f *Term)
+	addInst = func(f *Term) {
+		if !ts.HasQuant(f) {
+			asserts = append(asserts, f)
+			return
+		}
+		if f.Op == OpAnd {
+			addInst(f.Args[0])
+			addInst(f.Args[1])
+			return
+		}
+		work := []*Term{f}
+		for round := 0; round < 2; round++ {
+			var next []*Term
+			for _, w := range work {
+				for _, c := range consts {
+					for _, inst := range ts.Instances(w, c) {
+						if ts.HasQuant(inst) {
+							next = append(next, inst)
+						} else {
+							asserts = append(asserts, inst)
+						}
+					}
+				}
+			}
+			work = next
+		}
+	}
+	for _, f := range ex.facts[:o.NFacts] {
+		addInst(f)
+	}
+	addInst(o.PC)
+	asserts = append(asserts, ts.Not(g))
+	if len(asserts) > 4000 {
+		return ""
+	}
+	return ts.SMTScript(asserts, nil, "")
 }
 
 // focusScript builds the reduced query for a loop-invariant obligation, or "" when it would
